@@ -33,6 +33,7 @@ type Config struct {
 	MaxViolations  int
 	Solver         SolverKind
 	Verbose        bool
+	Summaries      map[string]bool
 }
 
 type Decision struct {
@@ -95,49 +96,49 @@ type Interp struct {
 	cur   *G
 	nextG int
 
-	steps           int64
-	maxDepth        int
-	pendingPanic    string
-	pendingPanicVal *Iface
-	lastResult      Value
-	syncPanic       bool
-	crash           *panicState
-	crashG          *G
-	panicsSeen      int
-	recovered       []string
-	known           map[string]bool
-	noPanic         bool
-	reach           []string
-	symMul          int
-	ghostConc       int64
-	ghostTerms      []*Term
-	allocLimit      *Term
-	dictLookups     []dictLookup
-	cmdLookups      []dictLookup
-	clock           int64
-	timers          []*timer
+	steps             int64
+	maxDepth          int
+	pendingPanic      string
+	pendingPanicVal   *Iface
+	lastResult        Value
+	syncPanic         bool
+	crash             *panicState
+	crashG            *G
+	panicsSeen        int
+	recovered         []string
+	known             map[string]bool
+	noPanic           bool
+	reach             []string
+	symMul            int
+	ghostConc         int64
+	ghostTerms        []*Term
+	allocLimit        *Term
+	dictLookups       []dictLookup
+	cmdLookups        []dictLookup
+	clock             int64
+	timers            []*timer
 	goroutinesSpawned int
-	nAsserts        int
-	nAssertsSym     int
-	nforks          int
-	unknownBranches int
-	observations    []string
-	preemptions     int
-	schedTrace      []int
-	newDecisions    int
-	quiesceWaiters  int
-	events          []string
-	lastModel       map[string]uint64
-	fmtPanics       int
-	fmtPanicDesc    []string
-	fmtDepth        int
-	poolMayDrop     bool
-	poolHits        int
-	autoAdvance     bool
-	yieldReq        bool
-	timerFirings    int
-	muOwner         map[string]int
-	initMode        bool
+	nAsserts          int
+	nAssertsSym       int
+	nforks            int
+	unknownBranches   int
+	observations      []string
+	preemptions       int
+	schedTrace        []int
+	newDecisions      int
+	quiesceWaiters    int
+	events            []string
+	lastModel         map[string]uint64
+	fmtPanics         int
+	fmtPanicDesc      []string
+	fmtDepth          int
+	poolMayDrop       bool
+	poolHits          int
+	autoAdvance       bool
+	yieldReq          bool
+	timerFirings      int
+	muOwner           map[string]int
+	initMode          bool
 }
 
 type PathResult struct {
@@ -565,6 +566,26 @@ func (it *Interp) replayDecision(kind uint8) (Decision, bool) {
 	return Decision{}, false
 }
 
+var forkStat = map[string]int{}
+var forkStatMu sync.Mutex
+
+func (it *Interp) noteFork(what string) {
+	if os.Getenv("SYMGO_FORKSTAT") == "" {
+		return
+	}
+	where := ""
+	if it.cur != nil && len(it.cur.frames) > 0 {
+		fr := it.top(it.cur)
+		where = fr.fn.Name()
+		if fr.block != nil && fr.pc < len(fr.block.Instrs) {
+			where += " " + it.prog.Fset.Position(fr.block.Instrs[fr.pc].Pos()).String()
+		}
+	}
+	forkStatMu.Lock()
+	forkStat[what+" @ "+where]++
+	forkStatMu.Unlock()
+}
+
 func (it *Interp) fork(d Decision) {
 	sib := make([]Decision, len(it.decisions)+1)
 	copy(sib, it.decisions)
@@ -604,6 +625,7 @@ func (it *Interp) decide(c *Term, what string) bool {
 		it.take(c, true, true)
 		return true
 	}
+	it.noteFork(what)
 	it.fork(Decision{Kind: 0, Taken: false})
 	it.decisions = append(it.decisions, Decision{Kind: 0, Taken: true})
 	it.take(c, true, false)
@@ -663,6 +685,7 @@ func (it *Interp) concretizeN(t *Term, what string, limit int) uint64 {
 		if n >= limit {
 			it.abort(PathInconclusive, "SPLIT-LIMIT: more than %d values for %s", limit, what)
 		}
+		it.noteFork("conc " + what)
 		it.fork(Decision{Kind: 1, Taken: false, Val: cand})
 		it.decisions = append(it.decisions, Decision{Kind: 1, Taken: true, Val: cand})
 		it.take(eq, true, false)
